@@ -1,6 +1,58 @@
-(* Ops/C05.v — protocol entry points for property C05 (stub until the model is built). *)
-From Coq Require Import List String.
-From PrefVerif Require Import Lib.Val.
+(* Ops/C05.v — protocol entry points for property C05 (consecutive ones + approval domains).
+   payloads:
+     c05.c1p_decide (nc rows)            rows = ((0|1 ...) ...)           -> bool
+     c05.c1p_check  (nc rows perm)       perm = (j ...)                   -> bool
+     c05.X_decide   (alts ballots)       X in ci cei vi vei wsc de part part2 -> bool
+     c05.X_check    (alts ballots w)     w = candidate order / ballot order / partition (list of lists)
+     c05.de_check   (alts ballots (vpr ap))   vpr = (((num den) (num den)) ...)  ap = ((alt (num den)) ...)
+     c05.model_part / c05.model_part2 (alts ballots) -> () | (parts)      the mirrored is_part / is_2_part
+     c05.de_construct (alts ballots order) -> bool   de_check of the code's construction on that order *)
+From Coq Require Import List ZArith NArith QArith String.
+From PrefVerif Require Import Lib.Val Model.C1P Model.Approval.
 Import ListNotations.
+Open Scope string_scope.
 
-Definition ops : optable := [].
+Definition d_rows (v : val) : matrix := dlist (dlist dbool) v.
+Definition d_perm (v : val) : list nat := dlist dnat v.
+Definition d_alts (v : val) : list N := dlist dN v.
+Definition d_ballots (v : val) : list (list N) := dlist (dlist dN) v.
+Definition dQ (v : val) : Q := Qmake (dZ (dnth 0 v)) (Z.to_pos (dZ (dnth 1 v))).
+
+Definition op_c1p_decide (v : val) : val := ebool (c1p_decide (d_rows (dnth 1 v)) (dnat (dnth 0 v))).
+Definition op_c1p_check (v : val) : val :=
+  ebool (c1p_check (d_rows (dnth 1 v)) (dnat (dnth 0 v)) (d_perm (dnth 2 v))).
+
+Definition dec2 (f : list N -> list (list N) -> bool) (v : val) : val :=
+  ebool (f (d_alts (dnth 0 v)) (d_ballots (dnth 1 v))).
+Definition chk_alt (f : list N -> list (list N) -> list N -> bool) (v : val) : val :=
+  ebool (f (d_alts (dnth 0 v)) (d_ballots (dnth 1 v)) (d_alts (dnth 2 v))).
+Definition chk_idx (f : list N -> list (list N) -> list nat -> bool) (v : val) : val :=
+  ebool (f (d_alts (dnth 0 v)) (d_ballots (dnth 1 v)) (d_perm (dnth 2 v))).
+
+Definition op_de_check (v : val) : val :=
+  let w := dnth 2 v in
+  ebool (de_check (d_alts (dnth 0 v)) (d_ballots (dnth 1 v))
+                  (dlist (dpair dQ dQ) (dnth 0 w)) (dlist (dpair dN dQ) (dnth 1 w))).
+Definition op_de_construct (v : val) : val :=
+  let alts := d_alts (dnth 0 v) in
+  let ballots := d_ballots (dnth 1 v) in
+  let w := de_construct ballots (d_alts (dnth 2 v)) in
+  ebool (de_check alts ballots (fst w) (snd w)).
+
+Definition e_parts (o : option (list (list N))) : val := eoption (elist (elist eN)) o.
+
+Definition ops : optable :=
+  [ ("c05.c1p_decide", op_c1p_decide); ("c05.c1p_check", op_c1p_check);
+    ("c05.ci_decide", dec2 ci_decide);   ("c05.ci_check", chk_alt ci_check);
+    ("c05.cei_decide", dec2 cei_decide); ("c05.cei_check", chk_alt cei_check);
+    ("c05.vi_decide", dec2 vi_decide);   ("c05.vi_check", chk_idx vi_check);
+    ("c05.vei_decide", dec2 vei_decide); ("c05.vei_check", chk_idx vei_check);
+    ("c05.wsc_decide", dec2 wsc_decide); ("c05.wsc_check", chk_idx wsc_check);
+    ("c05.de_decide", dec2 de_decide);   ("c05.de_check", op_de_check);
+    ("c05.de_construct", op_de_construct);
+    ("c05.part_decide", dec2 (fun _ b => part_decide b));
+    ("c05.part_check", fun v => ebool (part_check (d_ballots (dnth 1 v)) (d_ballots (dnth 2 v))));
+    ("c05.part2_decide", dec2 part2_decide);
+    ("c05.part2_check", fun v => ebool (part2_check (d_alts (dnth 0 v)) (d_ballots (dnth 1 v)) (d_ballots (dnth 2 v))));
+    ("c05.model_part", fun v => e_parts (is_part (d_ballots (dnth 1 v))));
+    ("c05.model_part2", fun v => e_parts (is_2_part (d_alts (dnth 0 v)) (d_ballots (dnth 1 v)))) ].
